@@ -30,7 +30,7 @@ from harness.common import coq_list, zlit, parse_coq_value, eval_outputs
 LEVEL = 'proof'
 
 REQUIRED = ['C14_filter_exact', 'C14_sort_sorted_perm', 'C14_filter_recomputed_spec', 'C14_filter_recomputed_keeps_accepted',
-            'C14_check_accepted_sound', 'C14_filter_recomputed_drops_accepted_refuted', 'C14_prepare_seq_aliasing_refuted',
+            'C14_check_accepted_sound', 'C14_check_accepted_fast_sound', 'C14_filter_recomputed_drops_accepted_refuted', 'C14_prepare_seq_aliasing_refuted',
             'C14_prepare_snapshot_spec', 'C14_key_injective', 'C14_increasing_times_nodup', 'C14_one_record_per_step',
             'C14_add_to_stats_key', 'C14_add_to_stats_stale', 'C14_return_stats_last_wins', 'C14_get_list_of_types_spec',
             'C14_tz_order']
@@ -58,12 +58,14 @@ def gen_configs(rng, n):
         problem = rng.choice(['test', 'test', 'vdp'])
         c = dict(problem=problem, levels=rng.choice([1, 1, 2]), procs=procs, maxiter=rng.choice([3, 3, 4]),
                  lam=(rng.choice([-5.0, -2.0, -8.0, -1.0]) if problem == 'test' else rng.choice([1.0, 2.0])),
-                 jac=rng.random() < 0.25, e_tol=None)
+                 jac=(rng.random() < 0.25 and mode in ('scripted', 'none')), e_tol=None)   # Adaptivity refuses Jacobi multi-step mode
         if mode in ('adaptive', 'both'):
             c['e_tol'] = rng.choice([1e-4, 3e-4, 1e-5])
             c['dt'] = rng.choice([0.2, 0.3, 0.1])
             c['Tend'] = rng.choice([0.6, 0.8, 1.0])
             c['maxiter'] = 3
+            if c['e_tol'] != 3e-4:
+                c['levels'] = 1      # multi-level runs do not reach tight tolerances with 3 iterations: step sizes collapse
         else:
             c['dt'] = rng.choice([0.1, 0.125, 0.05])
             c['Tend'] = c['dt'] * rng.randint(3, 4 * procs + 2)
@@ -210,27 +212,45 @@ def run(ck):
         ck.violation('generated prepare_next_block cases do not compile', {'log': out[-3000:]}, match={'kind': 'gen'}, no_input=True)
         return
     pv = parse_coq_value(eval_outputs(out)[0])
-    nb = 0
-    nsnap_diff = 0
-    for (flags, cnt, got, err), (same_seq, same_snap) in zip(pcases, pv):
+    for (flags, cnt, got, err), _ in zip(pcases, pv):
         ck.case(key=('prepare', tuple(flags), tuple(cnt)), nontrivial=any(flags))
-        nsnap_diff += not same_snap
-        if err is not None or not same_seq:
-            nb += 1
-            ck.violation('BasicRestartingNonMPI.prepare_next_block differs from its model prepare_seq' + (' (raised %s)' % err if err else ''),
-                         {'flags': flags, 'restarts_in_a_row': cnt, 'impl': got}, match={'kind': 'correspondence', 'what': 'prepare_next_block'},
-                         no_input=True)
-    ck.obligation('prepare_next_block: model prepare_seq = implementation on %d cases' % len(pcases), nb == 0)
-    ck.cov['prepare_next_block_cases_differing_from_snapshot_semantics'] = nsnap_diff
+    all_seq = all(err is None and a for (_, _, _, err), (a, _) in zip(pcases, pv))
+    all_snap = all(err is None and b for (_, _, _, err), (_, b) in zip(pcases, pv))
+    alias_repro = None
+    if all_snap:
+        ck.obligation('prepare_next_block: implementation = prepare_snapshot (every step takes its count along) on %d cases' % len(pcases), True)
+        ck.cov['prepare_next_block_semantics'] = 'snapshot'
+    elif all_seq:
+        ck.obligation('prepare_next_block: implementation = prepare_seq (in-place update, one call per step) on %d cases' % len(pcases), True)
+        ck.cov['prepare_next_block_semantics'] = 'sequential in-place (aliasing)'
+        for (flags, cnt, got, err), (_, same_snap) in zip(pcases, pv):
+            if not same_snap and all(flags[i] or not any(flags[:i]) for i in range(len(flags))):
+                rf = min([i for i, f in enumerate(flags) if f] + [len(flags) - 1])
+                snap = [(cnt[i] + 1 if flags[i] else 0) for i in range(rf, len(flags))] + [0] * rf
+                if alias_repro is None or len(flags) < len(alias_repro['restart_flags']):
+                    alias_repro = {'call': 'for S in MS: BasicRestartingNonMPI.prepare_next_block(..., S, size=len(MS), MS=MS)', 'restart_flags': flags,
+                                   'restarts_in_a_row_before': cnt, 'after_impl': got, 'after_snapshot_semantics': snap}
+        ck.cov['prepare_next_block_cases_differing_from_snapshot_semantics'] = sum(1 for _, (_, b_) in zip(pcases, pv) if not b_)
+    else:
+        bad = [(c, v) for c, v in zip(pcases, pv) if c[3] is not None or not (v[0] or v[1])]
+        (flags, cnt, got, err), _ = (bad or [(pcases[0], None)])[0]
+        ck.obligation('prepare_next_block: implementation = one of its two models', False)
+        ck.violation('BasicRestartingNonMPI.prepare_next_block is neither the pinned in-place update (prepare_seq) nor the snapshot update'
+                     + (' (raised %s)' % err if err else ''), {'flags': flags, 'restarts_in_a_row': cnt, 'impl': got},
+                     match={'kind': 'correspondence', 'what': 'prepare_next_block'}, no_input=True)
 
     # ================================================================== 3. real runs
-    cfgs = gen_configs(rng, 36 if thorough else 14)
+    import random
+    cfgs = gen_configs(random.Random('C14-runs:%d' % ck.seed), 36 if thorough else 14)
     agg = {}      # match-key -> (what, replay, match)
     run_infos = []
     coq_parts = []
     coq_meta = []
     for ri, cfg in enumerate(cfgs):
-        r = L.run_config(cfg)
+        r = L.run_config_guarded(cfg, 90)
+        if r['error'] == 'timeout':
+            run_infos.append({'cfg': cfg, 'error': 'no result within 90 s (skipped)'})
+            continue
         if r['error'] is not None:
             run_infos.append({'cfg': cfg, 'error': r['error']})
             ck.case(key=('run', repr(sorted(cfg.items()))), nontrivial=False)
@@ -246,6 +266,8 @@ def run(ck):
         for f in F:
             if f['kind'] in ('recomputed_filter_drops_accepted', 'recomputed_filter_keeps_superseded'):
                 match = {'kind': f['kind'], 'cause': f['cause']}
+                if f['cause'] == 'stale_hook_counter':
+                    match['hook'] = f['detail'].get('hook')
             elif f['kind'] in ('key_num_restarts_stale', 'record_missing'):
                 match = {'kind': f['kind'], 'hook': f['detail'].get('hook')}
             else:
@@ -254,6 +276,8 @@ def run(ck):
             if mk not in agg:
                 agg[mk] = dict(what=f['what'], match=match, n=0, runs=set(), first={'config': cfg, 'finding': f['what'], 'detail': f['detail'],
                                                                                    'run_summary': info_s})
+                if match.get('cause') == 'restart_counter_aliasing' and alias_repro is not None:
+                    agg[mk]['first']['function_level_reproducer'] = alias_repro
             agg[mk]['n'] += 1
             agg[mk]['runs'].add(ri)
         # ---- the same statistics through the Coq model and the verified validator
@@ -285,7 +309,7 @@ def run(ck):
                 exp[ty] = None
         part = ['Definition r%d : dict Z := %s.' % (ri, L.dict_lit(list(sub.items()))),
                 'Definition a%d : list entry := %s.' % (ri, coq_list([L.entry_lit(k) for k in acc_keys])),
-                'Definition v%d := (check_accepted a%d r%d, [%s]).' % (ri, ri, ri, '; '.join(
+                'Definition v%d := (check_accepted_fast a%d r%d, [%s]).' % (ri, ri, ri, '; '.join(
                     'match filter_stats ztruthy r%d (kw_tt (Y "%s") N) (Some false), %s with Some x, Some y => dict_eqb x y | None, None => true | _, _ => false end'
                     % (ri, ty, 'N' if exp[ty] is None else '(Some %s)' % L.dict_lit(exp[ty])) for ty in tys))]
         coq_parts.append((ri, '\n'.join(part)))
